@@ -259,13 +259,20 @@ func (s *Sim) buildPoolTx(kind int) *MTx {
 		s.r.Probe("heavy-sigop-tx-built")
 	}
 	// lock time at the boundary of finality for the next block
-	switch simkit.Pick(c, "ptx-lock", 8, 1, 1) {
+	switch simkit.Pick(c, "ptx-lock", 8, 1, 1, 1, 1, 1) {
 	case 1:
 		p.Lock = uint32(next) - 1 // final for the next block
 		p.Ins[0].Seq = 0xfffffffe
 	case 2:
 		p.Lock = uint32(next) // not yet final
 		p.Ins[0].Seq = 0xfffffffe
+	case 3, 4, 5:
+		// a time lock one second before, at, one second after the median
+		// time of the tip (the time the next block's locks are judged by once
+		// BIP113 is active)
+		p.Lock = uint32(s.n.Tip().mtp() + int64(simkit.Pick(c, "ptx-lock-mtp", 1, 1, 1)) - 1)
+		p.Ins[0].Seq = 0xfffffffe
+		s.r.Probe("pool-tx-time-locked-at-the-median-time-boundary")
 	}
 	t := w.makeTx(p)
 	t.Fee = fee
